@@ -65,8 +65,8 @@ func init() {
 			{Name: "action-no-relation", File: "diff.go", Find: "\t\tcase \"relation\":\n\t\t\tr := &Relation{}\n\t\t\tif err := d.DecodeElement(&r, &start); err != nil {\n\t\t\t\treturn err\n\t\t\t}\n\t\t\tif a.OSM == nil {\n\t\t\t\ta.OSM = &OSM{}\n\t\t\t}\n\t\t\ta.OSM.Relations = append(a.OSM.Relations, r)\n", Replace: "", ExpectRule: "T4", ExpectConstruct: "relation"},
 			{Name: "action-type-wrong-attr", File: "diff.go", Find: "if attr.Name.Local == \"type\" {", Replace: "if attr.Name.Local == \"action\" {", ExpectRule: "T4", ExpectConstruct: "attr@"},
 			{Name: "date-parse-other-layout", File: "note.go", Find: "d.Time, err = time.Parse(dateLayout, s)", Replace: "d.Time, err = time.Parse(time.RFC3339, s)", ExpectRule: "T4", ExpectConstruct: "layout@Date"},
-		}, append(append([]core.Mutant{}, append(append(c03Mutants2List(), c03FreshMutants...), c03DecoderMutants...)...), append(append(append([]core.Mutant{}, c03Mutants5...), c03ScanMutants...), append(append([]core.Mutant{}, c03ActionMutants...), c03DeepMutants...)...)...)...),
-		Benign: append(append([]core.Mutant{}, append(append(append([]core.Mutant{}, c03Benign...), c03Benign2List()...), append(append([]core.Mutant{}, c03FreshBenign...), c03DecoderBenign...)...)...), append(append(append([]core.Mutant{}, c03Benign5...), c03ScanBenign...), append(append([]core.Mutant{}, c03ActionBenign...), c03DeepBenign...)...)...),
+		}, append(append([]core.Mutant{}, append(append(c03Mutants2List(), c03FreshMutants...), c03DecoderMutants...)...), append(append(append([]core.Mutant{}, c03Mutants5...), c03ScanMutants...), append(append([]core.Mutant{}, c03ActionMutants...), append(append([]core.Mutant{}, c03DeepMutants...), c03R8Mutants...)...)...)...)...),
+		Benign: append(append([]core.Mutant{}, append(append(append([]core.Mutant{}, c03Benign...), c03Benign2List()...), append(append([]core.Mutant{}, c03FreshBenign...), c03DecoderBenign...)...)...), append(append(append([]core.Mutant{}, c03Benign5...), c03ScanBenign...), append(append([]core.Mutant{}, c03ActionBenign...), append(append([]core.Mutant{}, c03DeepBenign...), c03R8Benign...)...)...)...),
 	})
 }
 
